@@ -1,5 +1,6 @@
 import J5V.Go.Hex
 import J5V.Schema.Wire
+import J5V.Schema.ReaderWire
 /-!
 Line-protocol driver of the schema cluster (core only). One op per input line, one result per
 output line; see /verif/harness/PROTOCOL-schema.md.
@@ -7,7 +8,7 @@ output line; see /verif/harness/PROTOCOL-schema.md.
 * `loop <mode> <src> <S1 dump…>`   — export, import, link, export again on the dumped schema set
 * `reflect <hex> <summary…>`       — the Reader model on the descriptor summary
 -/
-open J5V.Go J5V.Schema J5V.Schema.Wire
+open J5V.Go J5V.Schema J5V.Schema.Wire J5V.Schema.Reader J5V.Schema.ReaderWire
 
 def dropEmpty (api : Api) : Api := api.filter fun (_, ss) => !ss.isEmpty
 
@@ -29,10 +30,41 @@ def stepLoop (toks : List String) : String :=
         let tail := if e2dump == e1dump then "same" else "diff " ++ e2dump
         "ok " ++ e1dump ++ " | " ++ prSet env2 ++ " | " ++ tail
 
+def cls {α} : Outcome α → String
+  | .ok _ => "ok"
+  | .err _ => "err"
+  | .panic _ => "panic"
+
+/-- the `SchemaCache.Schema` calls over every message of the set, on one cache -/
+def cacheLoop (ds : DescSet) : Reg → List String → List String
+  | _, [] => []
+  | reg, full :: rest =>
+    match ds.msg? full with
+    | none => ["?:panic"]
+    | some m =>
+      let (res, reg') := cacheSchema ds reg m
+      (Wire.encStr m.split ++ ":" ++ cls res) :: cacheLoop ds reg' rest
+
+def stepReflect (toks : List String) : String :=
+  match toks with
+  | ["nolink"] => "nolink"
+  | _ =>
+    match parseSummary toks with
+    | none => "bad-op"
+    | some ds =>
+      let setRes := schemaSetFromFiles ds
+      let setStr :=
+        if collides ds then "collide"
+        else match setRes with
+          | .ok reg => "ok " ++ prShape reg
+          | .err _ => "err"
+          | .panic _ => "panic"
+      "set=" ++ setStr ++ " cache=[ " ++ " ".intercalate (cacheLoop ds [] ds.allMsgs) ++ " ]"
+
 def step (line : String) : String :=
   match (line.trimAscii.toString.splitOn " ") with
   | "loop" :: _mode :: _src :: rest => stepLoop rest
-  | "reflect" :: _ => "skip"
+  | "reflect" :: _hex :: rest => stepReflect rest
   | _ => "bad-op"
 
 partial def loop (h : IO.FS.Stream) (out : IO.FS.Stream) : IO Unit := do
